@@ -211,7 +211,12 @@ def fluentLine (rs : RibSt) (fl : FlSt) (ts : List Tok) : RibSt × FlSt :=
                   let p := "operation#" ++ toString i ++ ".election_id."
                   if implNum impl (p ++ "low") = lo ∧ implNum impl (p ++ "high") = hi then rs
                   else rs.monfail "c18" s!"operation {i} is stamped with election id (low {implNum impl (p ++ "low")}, high {implNum impl (p ++ "high")}) but the id most recently set (or given on the entry) is (low {lo}, high {hi})"
-                | none => rs
+                | none =>
+                  -- no election id is due (the client is not an elected primary and the entry
+                  -- has none of its own): the operation carries none
+                  if impl.any (fun f => f.startsWith ("operation#" ++ toString i ++ ".election_id"))
+                  then rs.monfail "c18" s!"operation {i} carries an election id although the client is not an elected primary and the entry set none"
+                  else rs
               | none => rs) rs
             (cmpFields rs c (prefixOps fss) impl, { fl with client := c', lastId := fl.lastId + es.length })
           | none => (bad rs, fl)
@@ -226,6 +231,18 @@ def fluentLine (rs : RibSt) (fl : FlSt) (ts : List Tok) : RibSt × FlSt :=
           (cmpFields rs c (renderFields fs) impl, { fl with client := c' })
         | _, _, _ => (bad rs, fl)
       | _, _ => (bad rs, fl)
+    else if c = "fl.req" then
+      -- a Get / Flush request on the wire against the request built directly from the setters of
+      -- the chain that produced it (C18: the builders emit exactly what was set — by this chain)
+      match args with
+      | [kind, got, want] =>
+        match fieldsOf got, fieldsOf want with
+        | some g, some w =>
+          if (tokStr kind).endsWith "-not-sent" then (rs.covr "fl.req.notsent", fl)
+          else if g = w then (rs.covr "fl.req", fl)
+          else (rs.monfail "c18" s!"a {tokStr kind} request carries {g} on the wire, the builder calls of its chain set {w}", fl)
+        | _, _ => (bad rs, fl)
+      | _ => (bad rs, fl)
     else if c = "fl.restart" then
       -- Stop and Start of the same fluent client: the id sequence and the election id most
       -- recently set are the client's, not the session's — nothing changes
